@@ -71,7 +71,7 @@ pub fn c14(ctx: &Ctx) -> Report {
     rep.set("exhaustive", true);
     rep.set(
         "rule",
-        "the full matrix certificate {chains to the added root, self-signed, unknown issuer, expired, not yet valid} x name {matches, differs} x accept_invalid_certs x accept_invalid_hostnames x root added x route {direct https, inside a CONNECT tunnel through an http proxy, https proxy} x where the flags/root were set {session, request, sibling request, clone of the session, session after the request was created} x host spelling {domain, 127.0.0.1, [::1]} x backend {native-tls, rustls}; every cell is one real exchange (TLS handshake + request) against local listeners; every cell is distinct",
+        "(rustls only, 6 extra cells: a rustls server that presents a validly chained certificate but signs the handshake with another key must be refused whatever accept_invalid_hostnames says) + the full matrix certificate {chains to the added root, self-signed, unknown issuer, expired, not yet valid} x name {matches, differs} x accept_invalid_certs x accept_invalid_hostnames x root added x route {direct https, inside a CONNECT tunnel through an http proxy, https proxy} x where the flags/root were set {session, request, sibling request, clone of the session, session after the request was created} x host spelling {domain, 127.0.0.1, [::1]} x backend {native-tls, rustls}; every cell is one real exchange (TLS handshake + request) against local listeners; every cell is distinct",
     );
     rep.assume("X.509 path validation itself is OpenSSL's / webpki's; what is decided is that attohttpc asks for it with the right name, flags and roots on every route and in every scope");
     rep.assume("the converse (a peer satisfying the rule is accepted) is enforced as the non-vacuity half except for [::1] hosts, where both backends are handed the bracketed literal as the server name and reject it (fail-safe)");
@@ -82,6 +82,10 @@ pub fn c14(ctx: &Ctx) -> Report {
 pub fn replay(v: &Value) -> i32 {
     if v["case"]["defaults"] == true {
         return if defaults_ok().is_err() { 1 } else { 0 };
+    }
+    if v["case"]["wrong_key"] == true {
+        let st = Command::new(RUSTLS_BIN).arg("--wrong-key").status().expect("vh-rustls");
+        return st.code().unwrap_or(2);
     }
     let case = v["case"]["case"].clone();
     if v["case"]["backend"] == "rustls" {
